@@ -67,7 +67,7 @@ BadAlphabet == IF WithBadMsgs THEN {[k |-> "multi"], [k |-> "empty"]} ELSE {}
 Msgs(s) == ParamAlphabet \cup ElecAlphabet \cup OpsAlphabet(s) \cup BadAlphabet
 
 FlushAlphabet ==
-  {[ni |-> n, el |-> "override", id |-> NoId] : n \in {"*", "", "nosuchni"}}
+  {[ni |-> n, el |-> "override", id |-> NoId] : n \in {"*", "", "nosuchni", "<empty>"}}   \* "<empty>": the name field set to ""
   \cup {[ni |-> "*", el |-> "none", id |-> NoId]}
   \cup {[ni |-> "*", el |-> "id", id |-> i] : i \in Ids \cup {NoId}}
 
